@@ -123,6 +123,11 @@ class Token:
     def is_any(self, *token_types) -> bool:
         return self._token_type in (token_types)
 
+    def is_mark(self, *marks) -> bool:
+        # True for a punctuation token with one of the given texts. A quoted
+        # string containing the same text is not punctuation.
+        return self._token_type is TokenTypes.MARK and self._content in marks
+
     @property
     def token_type(self):
         return self._token_type
@@ -138,8 +143,8 @@ class Token:
     @property
     def is_binop(self):
         return (self.is_a(TokenTypes.COMPARE)
-                or self.content in '+-*/%^'
-                or self.content in ('and', 'or'))
+                or self.is_mark('+', '-', '*', '/', '%', '^')
+                or self.is_any(TokenTypes.AND, TokenTypes.OR))
 
     @property
     def line_number(self):
@@ -167,6 +172,6 @@ class Token:
 
     @property
     def assoc(self):
-        if self.content in ('not', '^'):
+        if self.is_a(TokenTypes.NOT) or self.is_mark('^'):
             return Assoc.RIGHT
         return Assoc.LEFT
